@@ -252,20 +252,33 @@ func setWorkers(w int) {
 }
 
 var parsedFor = ""
+var parseProblem = "" // what the option parser of the command did instead of returning (log.Fatal, panic)
 
 // prepare parses the options of the scenario (outside the controlled execution, as main() does).
 // The option variables are package-level state of the command packages and boolean flags toggle
 // their current value, so one process parses ONE command line only (one scenario per shard).
-func prepare(p param) {
+//
+// The parser is code of the tree under test running on the goroutine of the harness: when it ends the program
+// (log.Fatal -> vsched.Exit panics) or panics on one of these valid command lines, prepare returns what happened
+// (the caller reports a control-run violation and skips the scenario) instead of dying with the shard.
+func prepare(p param) (problem string) {
 	sig := p.Scn + " " + strings.Join(p.Args, " ")
 	if parsedFor == sig {
-		setWorkers(p.Workers)
-		return
+		if parseProblem == "" {
+			setWorkers(p.Workers)
+		}
+		return parseProblem
 	}
 	if parsedFor != "" {
 		panic("harness: a second command line in the same process")
 	}
 	parsedFor = sig
+	defer func() {
+		if e := recover(); e != nil {
+			parseProblem = fmt.Sprintf("the option parser does not return on the command line %q: %v", p.Args, e)
+			problem = parseProblem
+		}
+	}()
 	switch p.Scn {
 	case "annotate":
 		parse(obiannotate.OptionSet, p.Args)
@@ -283,6 +296,7 @@ func prepare(p param) {
 		parse(obiconvert.OptionSet, p.Args)
 	}
 	setWorkers(p.Workers)
+	return ""
 }
 
 // body builds and drains the pipeline inside the controlled execution and returns the output bytes.
@@ -394,6 +408,23 @@ func poison(x any) {
 	}
 }
 
+// explore = vsched.Explore, except that a failure of the engine's self check "the same schedule run twice gives the same
+// trace and the same verdict" (a panic of the engine; it never fails on the pinned tree) is returned instead of ending
+// the shard: a tree whose behaviour depends on what earlier executions left behind (package-level state: a counter, a
+// cache, a sync.Once) is reported as a violation (control-run/not-deterministic) and the job is given up.
+func explore(cfg vsched.Config, body func(x *vsched.Exec)) (st *vsched.Stats, diverged string) {
+	defer func() {
+		if e := recover(); e != nil {
+			if s, ok := e.(string); ok && strings.HasPrefix(s, "vsched: replay of a") {
+				st, diverged = &vsched.Stats{Outcomes: map[string]int64{}, TraceHashes: map[uint64]struct{}{}}, s
+				return
+			}
+			panic(e)
+		}
+	}()
+	return vsched.Explore(cfg, body), ""
+}
+
 func TestVerifC05(t *testing.T) {
 	log.SetOutput(io.Discard)
 	log.StandardLogger().ExitFunc = vsched.Exit
@@ -406,7 +437,9 @@ func TestVerifC05(t *testing.T) {
 	reference := func(p param) string {
 		q := p
 		q.Workers, q.Batch = 1, 100
-		prepare(q)
+		if problem := prepare(q); problem != "" {
+			return "reference run failed: option-parsing: " + problem
+		}
 		vsched.PoolChoices = false
 		x := vsched.RunOnce(nil, 20000, nil, nil, func(x *vsched.Exec) { x.Obs = body(q) })
 		if x.Outcome() != "" {
@@ -521,6 +554,9 @@ func TestVerifC05(t *testing.T) {
 		}
 		p := j.p
 		fault := strings.HasPrefix(p.Scn, "fault-")
+		if fault {
+			r.Count("fault_jobs", 1)
+		}
 		ref := reference(p)
 		if fault {
 			// the sequential run must itself end in log.Fatal
@@ -564,13 +600,25 @@ func TestVerifC05(t *testing.T) {
 			}
 			return ""
 		}
-		st := vsched.Explore(cfg, func(x *vsched.Exec) { x.Obs = body(p) })
+		st, div := explore(cfg, func(x *vsched.Exec) { x.Obs = body(p) })
 		vsched.PoolChoices = false
+		if div != "" {
+			prop := "C05/"
+			if fault {
+				prop = "C18/"
+			}
+			q := p
+			q.Bound = j.bound
+			r.Violate(prop+p.Scn+"/control-run/not-deterministic", fmt.Sprintf("%s %v workers=%d batch=%d: %s", p.Scn, p.Args, p.Workers, p.Batch, div), q)
+			r.Cap(fmt.Sprintf("exploration of %s %v given up: the same schedule does not give the same execution twice", p.Scn, p.Args))
+			continue
+		}
 		r.Eval(st.Executions)
 		r.Trace(st.Executions)
 		r.Trans(st.Points)
 		r.Replayed(st.ReplaysChecked)
 		r.Count("hb_states", st.States)
+		r.Count("schedules_executed", st.Executions)
 		for o, n := range st.Outcomes {
 			r.Count("outcome_"+o, n)
 		}
@@ -603,9 +651,9 @@ func TestVerifC05(t *testing.T) {
 		}
 	}
 	if os.Getenv("VERIF_C05_ONLY") != "fault" {
-		r.RequireNonVacuous("outcome_completed")
+		r.RequireNonVacuous("schedules_executed") // what the harness did; how the executions ended is the tree's answer
 	} else {
-		r.RequireNonVacuous("fault_scenarios_whose_sequential_run_exits_nonzero")
+		r.RequireNonVacuous("fault_jobs") // faults injected by the harness; whether the sequential run reports them is judged above
 	}
 }
 
